@@ -667,6 +667,38 @@ theorem fact_verify_soft_fail_scope :
     Facts.C11.verifierVerifyStmts = ["validator := credential.FindValidator(credentialToVerify)", "if err != nil", "err := validator.Validate(credentialToVerify)", "return err", "if len(credentialToVerify.Type) > 2", "return errors.New(\"verifiable credential must list at most 2 types\")", "if credentialToVerify.ID != nil", "revoked,err := v.IsRevoked(*credentialToVerify.ID)", "if err != nil", "return err", "if revoked", "return types.ErrRevoked", "err := v.credentialStatus.Verify(credentialToVerify)", "if err != nil", "if errors.Is(err,types.ErrRevoked)", "return err", "bs,_ := json.Marshal(credentialToVerify)", "if !allowUntrusted", "range credentialToVerify.Type", "if t.String() == verifiableCredentialType", "continue", "if !v.trustConfig.IsTrusted(t,credentialToVerify.Issuer)", "return types.ErrUntrusted", "validAtNotNil := time.Now()", "if validAt != nil", "validAtNotNil = *validAt", "if !credentialToVerify.ValidAt(validAtNotNil,maxSkew)", "return types.ErrCredentialNotValidAtTime", "if checkSignature", "issuerDID,err := did.ParseDID(credentialToVerify.Issuer.String())", "if err != nil", "return fmt.Errorf(\"could not validate issuer: %w\",err)", "metadata := resolver.ResolveMetadata{ResolveTime:validAt,AllowDeactivated:false}", "rawJwt := credentialToVerify.Raw()", "if rawJwt != \"\"", "headers,err := ExtractProtectedHeaders(rawJwt)", "if err != nil", "return err", "metadata.JwtProtectedHeaders = headers", "_,_,err = v.didResolver.Resolve(*issuerDID,&metadata)", "if err != nil", "return fmt.Errorf(\"could not validate issuer: %w\",err)", "return v.VerifySignature(credentialToVerify,validAt)", "return nil"] := by
   decide
 
+/-! ### 10. when a cached external list is refreshed -/
+
+/-- `refresh_iff_expired_or_too_old`: a cached record of a list this node does not manage is refreshed exactly when it has an
+    expiry that lies in the past OR its (first) download is older than `maxAgeExternal` — in particular a list WITHOUT
+    expirationDate is refreshed as soon as it is too old -/
+theorem refresh_iff_expired_or_too_old (E : Env) (now : Nat) (rec : CredRec) :
+    (stale E now rec = true ↔ (∃ e, rec.expires = some e ∧ e < now) ∨ rec.createdAt + E.maxAge < now) ∧
+    (∀ hasExpiry expired tooOld, refreshDecision hasExpiry expired tooOld = true ↔ (hasExpiry = true ∧ expired = true) ∨ tooOld = true) ∧
+    (∀ expired, refreshDecision false expired true = true) := by
+  refine ⟨?_, ?_, ?_⟩
+  · unfold stale refreshDecision
+    cases h : rec.expires with
+    | none => simp
+    | some e => simp
+  · intro a b c; cases a <;> cases b <;> cases c <;> simp [refreshDecision]
+  · intro b; cases b <;> rfl
+
+/-- and then `statusList` does ask for a download (`needsFetch`) -/
+theorem too_old_external_list_is_fetched (E : Env) (now : Nat) (n : Node) (u : Url) (rec : CredRec)
+    (hrec : n.cred? u = some rec) (hnm : n.isManaged u = false) (hold : rec.createdAt + E.maxAge < now) :
+    needsFetch E now n u = true := by
+  have := ((refresh_iff_expired_or_too_old E now rec).1).mpr (Or.inr hold)
+  simp [needsFetch, hrec, hnm, this]
+
+set_option maxRecDepth 100000 in
+/-- the operator tree of the refresh condition in the source: `||` at the root, the `Expires != nil` guard only over the
+    expiry test (a moved parenthesis changes this tree even where a textual comparison might be normalised away) -/
+theorem fact_status_list_refresh_tree :
+    Facts.C11.statusListRefreshTree =
+      "(|| (&& [cr.Expires != nil] [time.Unix(*cr.Expires,0).Before(time.Now())]) [time.Unix(cr.CreatedAt,0).Add(maxAgeExternal).Before(time.Now())])" := by
+  decide
+
 /-! ### regenerated facts the model relies on -/
 
 theorem fact_bitstring_arithmetic :
